@@ -24,6 +24,12 @@ def handle (cmd : String) (args : List Sexp) : Option String :=
   | "frames.depths", [.list ops] => do
       let ops ← ops.mapM op?
       pure ("(" ++ " ".intercalate ((depths MSt.init ops).map toString) ++ ")")
+  -- (frames.states (ops ...)) -> before each instruction: (height (gos, most recent first) ((m g) ..., innermost call first) errH)
+  | "frames.states", [.list ops] => do
+      let ops ← ops.mapM op?
+      let one (s : MSt) : String :=
+        s!"({s.st.length} ({" ".intercalate (s.gos.map toString)}) ({" ".intercalate (s.marks.map fun (m, g) => s!"({m} {g})")}) {s.errH})"
+      pure ("(" ++ " ".intercalate ((states MSt.init ops).map one) ++ ")")
   | _, _ => none
 
 end RbModel.Drv.Frames
